@@ -166,14 +166,17 @@ class ThreadedMailboxProcessor(BaseProcessor):
                 to_flow_freely |= double_dependency
                 self.log.debug(f"Updating flow freely for {mname} to be {to_flow_freely}")
 
+                # Outputs that are loaded from storage already have a sender
+                # (their loader): the divider must not send into those mailboxes
+                divided = tuple(k for k in p.provides if k not in components.loaders)
                 self.mailboxes[mname].add_reader(
                     partial(
                         strax.divide_outputs,
                         lazy=lazy,
                         # make sure to subscribe the outputs of the mp_plugins
-                        mailboxes={k: self.mailboxes[k] for k in p.provides},
+                        mailboxes={k: self.mailboxes[k] for k in divided},
                         flow_freely=to_flow_freely,
-                        outputs=p.provides,
+                        outputs=divided,
                     )
                 )
 
